@@ -93,6 +93,7 @@ func c04MySQL(t *testing.T, plan *kernel.Plan, keepLog bool) *kernel.Result {
 			w.Violate("C04", "world-builds", "mysql", err.Error())
 			return
 		}
+		pw.WriteYield = plan.Sw("wyield") == 1
 		type row struct {
 			id    int
 			plain string
